@@ -175,6 +175,40 @@ def cone_modules(meta, pid):
     return sorted(m for m in mods if m)
 
 
+def new_functions(meta):
+    try:
+        base = set(json.load(open(os.path.join(VERIF, 'vkit', 'baseline_fns.json'))))
+    except (OSError, ValueError):
+        return set()
+    return set(meta['fn_index']) - base
+
+
+def fn_source(f, meta):
+    """source text of function f in the current tree: from its first line to the next function of the same file"""
+    fi = meta['fn_index'].get(f)
+    if not fi:
+        return ''
+    try:
+        lines = open(os.path.join(REPO, 'src', fi['file'])).read().split('\n')
+    except OSError:
+        return ''
+    starts = sorted(v['line'] for v in meta['fn_index'].values() if v['file'] == fi['file'] and v['line'] > fi['line'])
+    end = starts[0] - 1 if starts else len(lines)
+    return '\n'.join(lines[fi['line'] - 1:end])
+
+
+def calls_new_function(f, meta, new_fns):
+    txt = fn_source(f, meta)
+    fi = meta['fn_index'].get(f) or {}
+    if fi.get('owner') == 'trait_decl':
+        # a clause of a trait contract fails in an implementation of that method
+        last = f.split('::')[-1]
+        for g, gi in meta['fn_index'].items():
+            if gi.get('owner') == 'trait_impl' and g.split('::')[-1] == last:
+                txt += '\n' + fn_source(g, meta)
+    return any(re.search(r'\b%s\s*\(' % re.escape(n.split('::')[-1]), txt) for n in new_fns if n != f)
+
+
 def failure_name(r):
     if r.get('target') == 'clause':
         return '%s/%s' % (r['fn'], r['cid'])
@@ -318,6 +352,19 @@ def run_check(pid, tier, seed):
 
     mine = {n: r for n, r in all_fail.items() if pid in r.get('props', []) or '*' in r.get('props', [])}
     others = {n: r for n, r in all_fail.items() if n not in mine}
+    # Modularity: a caller is checked against its callees' CONTRACTS.  A function that does not exist in the pinned tree has no contract
+    # (its postcondition is `true`), so an obligation of a function that calls it cannot be discharged whatever the helper does: that is
+    # "undecided", not a violation -- unless a concrete failing input is found below.
+    new_fns = new_functions(meta)
+    demoted = {}
+    if new_fns:
+        for n in list(mine):
+            f = mine[n].get('fn')
+            if f and (f in new_fns or calls_new_function(f, meta, new_fns)):
+                demoted[n] = mine.pop(n)
+        if demoted:
+            say(pid, 'functions without contract (not in the pinned tree): %s; %d failed obligation(s) of their callers cannot be decided modularly: %s'
+                % (sorted(new_fns), len(demoted), sorted(demoted)[:6]))
     unit_names = {u['name'] for u in units}
     # rlimit / undecided in a function of this property's cone -> exit 2
     cone_fns = {u.get('fn') for u in units if u.get('fn')}
@@ -457,6 +504,13 @@ def run_check(pid, tier, seed):
     }
 
     rc = 0
+    if demoted and not violation:
+        rp = concretise.bounded_standin(pid, 'obligations of functions that call functions without contract: %s' % sorted(demoted)[:8], list(demoted.values()), REPO, scratch, say)
+        if rp:
+            print('VIOLATION property=%s replay=%s' % (pid, rp), flush=True)
+            return 1
+        say(pid, 'UNDECIDED (exit 2): the changed tree has functions without contract; the obligations of their callers are not decided')
+        return 2
     if und and not violation:
         say(pid, 'resource limit reached in %s' % sorted({str(u.get('fn')) for u in und}))
         # undecided by the verifier: bounded stand-in; only a concrete, replayable failing input is a violation
